@@ -250,3 +250,43 @@ def mutate(gd, rng):
     if not _acyclic(nodes, di):
         return gd
     return out
+
+
+def edit_inplace(g, gd, rng):
+    """One in-place edit of the real NxMixedGraph object ``g`` through its public mutators (and the documented
+    networkx components for removals), mirrored in the description ``gd`` (returned as a new dict).  Acyclicity kept.
+    Used by the *edit histories*: call, edit the same object, call again — a stale cache or memo keyed by the object
+    answers for the graph as it was."""
+    from y0.dsl import Variable
+
+    from ..refgraph import RG
+
+    nodes = list(gd["nodes"])
+    di = [list(e) for e in gd["di"]]
+    bi = [list(e) for e in gd["bi"]]
+    order = RG.make(nodes, [tuple(e) for e in di], []).topological_order()
+    pos = {v: i for i, v in enumerate(order)}
+    op = rng.choice(["add_di", "add_di", "add_bi", "add_bi", "del_di", "del_bi", "add_node"])
+    if op == "add_di" and len(nodes) >= 2:
+        a, b = rng.sample(nodes, 2)
+        if pos[a] > pos[b]:
+            a, b = b, a
+        if [a, b] not in di:
+            g.add_directed_edge(Variable(a), Variable(b))
+            di.append([a, b])
+    elif op == "add_bi" and len(nodes) >= 2:
+        a, b = rng.sample(nodes, 2)
+        if [a, b] not in bi and [b, a] not in bi:
+            g.add_undirected_edge(Variable(a), Variable(b))
+            bi.append([a, b])
+    elif op == "del_di" and di:
+        a, b = di.pop(rng.randrange(len(di)))
+        g.directed.remove_edge(Variable(a), Variable(b))
+    elif op == "del_bi" and bi:
+        a, b = bi.pop(rng.randrange(len(bi)))
+        g.undirected.remove_edge(Variable(a), Variable(b))
+    elif op == "add_node" and len(nodes) < 8:
+        new = next(f"V{i}" for i in range(30) if f"V{i}" not in nodes)
+        g.add_node(Variable(new))
+        nodes.append(new)
+    return {"nodes": nodes, "di": di, "bi": bi, "hostile": "edited"}
